@@ -409,3 +409,89 @@ func posOf(in ssa.Instruction, fn *ssa.Function) token.Pos {
 	}
 	return fn.Pos()
 }
+
+func init() {
+	register(&Rule{
+		ID: "C11-e", Template: "no loop-carried state in a per-round test",
+		Doc: "A merge base is reported missing only when every frontier was exhausted in the same round: in ref.SeekCommonAncestor the counter compared with the number of frontiers before the 'not found' return is accumulated within one round — it is not carried over by the loop that contains the test (a count that accumulates across rounds reports 'not found' for a short history merged with a long one).",
+		Min: 1,
+		Run: func(p *Program, r *RuleResult) error {
+			fn, err := p.SSAFunc("pkg/ref.SeekCommonAncestor")
+			if err != nil {
+				return err
+			}
+			r.Analysed = 1
+			ei := errorResultIndex(fn.Signature)
+			n := 0
+			for _, ret := range returnsOf(fn) {
+				v := retVal(ret, ei)
+				if v == nil || !definitelyNonNilError(v) {
+					continue
+				}
+				// the controlling test: the If whose edge leads straight to this return
+				for _, b := range fn.Blocks {
+					if len(b.Instrs) == 0 {
+						continue
+					}
+					ifi, ok := b.Instrs[len(b.Instrs)-1].(*ssa.If)
+					if !ok {
+						continue
+					}
+					leads := false
+					for _, s := range b.Succs {
+						if s == ret.Block() {
+							leads = true
+						}
+					}
+					if !leads {
+						continue
+					}
+					bo, ok := ifi.Cond.(*ssa.BinOp)
+					if !ok || bo.Op != token.EQL {
+						continue
+					}
+					_, xLen := lenOperand(bo.X)
+					_, yLen := lenOperand(bo.Y)
+					var counter ssa.Value
+					if xLen {
+						counter = bo.Y
+					} else if yLen {
+						counter = bo.X
+					} else {
+						continue
+					}
+					key := fmt.Sprintf("%s|not-found-test#%d", funcName(fn), n)
+					n++
+					what := "'not found' is decided by a count accumulated within the current round"
+					bad := false
+					for x := range backward(counter, nil) {
+						ph, isPhi := x.(*ssa.Phi)
+						if !isPhi {
+							continue
+						}
+						// is ph at the header of a loop that contains the test?
+						h := ph.Block()
+						isHeader := false
+						for _, pr := range h.Preds {
+							if h.Dominates(pr) {
+								isHeader = true
+							}
+						}
+						if !isHeader {
+							continue
+						}
+						if loopBody(h)[b] {
+							bad = true
+						}
+					}
+					if bad {
+						r.bad(key, p.Rel(ifi.Cond.Pos()), what, "the counter is carried over by the loop that contains the test: exhausted frontiers are counted again in every later round")
+					} else {
+						r.ok(key, p.Rel(ifi.Cond.Pos()), what)
+					}
+				}
+			}
+			return nil
+		},
+	})
+}
